@@ -906,6 +906,20 @@ func (h *handler) scenarioScript(ci *connInfo, cb string) {
 			h.doCall(ci, "next", -1, nil, false)
 			h.doCall(ci, "write", 0, big(10), false) // the first write of the case fails: EPIPE injected
 		}
+	case "stale-read0":
+		if cb == "traffic" {
+			h.doCall(ci, "next", -1, nil, false)
+			if ci.cid == 0 && ci.traffic == 2 {
+				select {
+				case h.inTraffic <- struct{}{}:
+				default:
+				}
+				select {
+				case <-h.release:
+				case <-time.After(3 * time.Second):
+				}
+			}
+		}
 	case "accept-fatal", "onopen-big-reply", "onopen-big-reply-shutdown":
 		if cb == "traffic" {
 			h.doCall(ci, "next", -1, nil, false)
